@@ -153,7 +153,38 @@ pub(crate) fn parse_instructions(input: ParserInput) -> InternalParserResult<Vec
 
 /// Parse a block of indented "block instructions."
 pub(crate) fn parse_block(input: ParserInput) -> InternalParserResult<Vec<Instruction>> {
+    // A block instruction may itself be a definition with a block (`DEFCAL`, `DEFCIRCUIT`), and the
+    // parser recurses once per level, as does everything that later walks the result. Without a
+    // bound, a few thousand lines of `DEFCIRCUIT A:` each indented under the previous one exhaust
+    // the stack and abort the process.
+    struct Level;
+    impl Drop for Level {
+        fn drop(&mut self) {
+            BLOCK_DEPTH.with(|depth| depth.set(depth.get() - 1));
+        }
+    }
+    let depth = BLOCK_DEPTH.with(|depth| {
+        depth.set(depth.get() + 1);
+        depth.get()
+    });
+    let _level = Level;
+    if depth > MAX_BLOCK_DEPTH {
+        return Err(nom::Err::Failure(InternalParseError::from_kind(
+            input,
+            ParserErrorKind::BlockTooDeeplyNested {
+                limit: MAX_BLOCK_DEPTH,
+            },
+        )));
+    }
     many1(parse_block_instruction)(input)
+}
+
+/// How deeply instruction blocks may nest; see [`parse_block`].
+const MAX_BLOCK_DEPTH: usize = 64;
+
+thread_local! {
+    /// The number of [`parse_block`] calls active on this thread.
+    static BLOCK_DEPTH: std::cell::Cell<usize> = const { std::cell::Cell::new(0) };
 }
 
 /// Parse a single indented "block instruction."
